@@ -10,6 +10,7 @@ CHECKS = {
     'C10': checks_sampler.check,
     'C12': checks_sampler.check,
     'C05': checks_ckpt.check_c05,
+    'C06': checks_ckpt.check_c06,
 }
 
 
